@@ -144,6 +144,20 @@ def foldEnc {α : Type} (f : α → Bytes → Except SerErr Bytes) : List α →
     | .error e => .error e
     | .ok b => foldEnc f vs b
 
+/-- One map entry: key cell then value cell into the same buffer (`serialize_mapping` loop body). -/
+def pairImpl (fk fv : CqlVal → Bytes → Except SerErr Bytes) (kv : CqlVal × CqlVal) (b : Bytes) :
+    Except SerErr Bytes :=
+  match fk kv.1 b with
+  | .error e => .error e
+  | .ok b1 => fv kv.2 b1
+
+/-- `serialize_next_variable_length_elem`: the element goes to a fresh buffer (without size), then
+`unsigned vint length ++ bytes` is appended. -/
+def varElemImpl (f : CqlVal → Bytes → Except SerErr Bytes) (v : CqlVal) (b : Bytes) : Except SerErr Bytes :=
+  match f v [] with
+  | .error e => .error e
+  | .ok eb => .ok (b ++ uvintEnc (BitVec.ofNat 64 eb.length) ++ eb)
+
 /-- A scalar: `exact_type_check!`, then `set_value` (or builder + `finish` for decimals). -/
 def encScalarImpl (accepted : List NativeTy) (body : Bytes) (viaBuilder : Bool) (t : CqlTy) (ws : Bool)
     (buf : Bytes) : Except SerErr Bytes :=
@@ -187,10 +201,7 @@ def encImpl : CqlTy → CqlVal → Bool → Bytes → Except SerErr Bytes
             | .error e => .error e
             | .ok b => builderFinish ws start b
           | none =>
-            match foldEnc (fun v b =>
-                match encImpl elt v false [] with
-                | .error e => .error e
-                | .ok eb => .ok (b ++ uvintEnc (BitVec.ofNat 64 eb.length) ++ eb)) vs b0 with
+            match foldEnc (varElemImpl (fun v b => encImpl elt v false b)) vs b0 with
             | .error e => .error e
             | .ok b => builderFinish ws start b
       | _ => .error .notSetOrList
@@ -201,10 +212,8 @@ def encImpl : CqlTy → CqlVal → Bool → Bytes → Except SerErr Bytes
         let b0 := builderNew ws buf
         if kvs.length > i32Max then .error .tooManyElements
         else
-          match foldEnc (fun (kv : CqlVal × CqlVal) b =>
-              match encImpl kt kv.1 true b with
-              | .error e => .error e
-              | .ok b1 => encImpl vt kv.2 true b1) kvs (b0 ++ be32 kvs.length) with
+          match foldEnc (pairImpl (fun k b => encImpl kt k true b) (fun v b => encImpl vt v true b)) kvs
+              (b0 ++ be32 kvs.length) with
           | .error e => .error e
           | .ok b => builderFinish ws start b
       | _ => .error .notMap
@@ -274,6 +283,21 @@ def concatEnc {α : Type} (g : α → Except SerErr Bytes) : List α → Except 
       | .error e => .error e
       | .ok r => .ok (b ++ r)
 
+/-- One map entry: key cell ++ value cell. -/
+def pairSpec (gk gv : CqlVal → Except SerErr Bytes) (kv : CqlVal × CqlVal) : Except SerErr Bytes :=
+  match gk kv.1 with
+  | .error e => .error e
+  | .ok kb =>
+    match gv kv.2 with
+    | .error e => .error e
+    | .ok vb => .ok (kb ++ vb)
+
+/-- A variable-width vector element: unsigned vint length ++ content. -/
+def varElemSpec (g : CqlVal → Except SerErr Bytes) (v : CqlVal) : Except SerErr Bytes :=
+  match g v with
+  | .error e => .error e
+  | .ok eb => .ok (uvintEnc (BitVec.ofNat 64 eb.length) ++ eb)
+
 def encScalarSpec (accepted : List NativeTy) (body : Bytes) (viaBuilder : Bool) (t : CqlTy) (ws : Bool) :
     Except SerErr Bytes :=
   match t with
@@ -310,10 +334,7 @@ def encSpec : CqlTy → CqlVal → Bool → Except SerErr Bytes
             | .error e => .error e
             | .ok cells => frame ws cells
           | none =>
-            match concatEnc (fun v =>
-                match encSpec elt v false with
-                | .error e => .error e
-                | .ok eb => .ok (uvintEnc (BitVec.ofNat 64 eb.length) ++ eb)) vs with
+            match concatEnc (varElemSpec (fun v => encSpec elt v false)) vs with
             | .error e => .error e
             | .ok cells => frame ws cells
       | _ => .error .notSetOrList
@@ -322,13 +343,7 @@ def encSpec : CqlTy → CqlVal → Bool → Except SerErr Bytes
       | .map kt vt =>
         if kvs.length > i32Max then .error .tooManyElements
         else
-          match concatEnc (fun (kv : CqlVal × CqlVal) =>
-              match encSpec kt kv.1 true with
-              | .error e => .error e
-              | .ok kb =>
-                match encSpec vt kv.2 true with
-                | .error e => .error e
-                | .ok vb => .ok (kb ++ vb)) kvs with
+          match concatEnc (pairSpec (fun k => encSpec kt k true) (fun v => encSpec vt v true)) kvs with
           | .error e => .error e
           | .ok cells => frame ws (be32 kvs.length ++ cells)
       | _ => .error .notMap
@@ -636,5 +651,130 @@ def decBytes (u : Bytes → Bool) (t : CqlTy) (cell : Bytes) : Except DeErr CqlV
   match readCqlBytes cell with
   | .error e => .error e
   | .ok (c, _) => decCell u t c
+
+/-! ### normal form and domain of the round trip -/
+
+/-- The field value the serializer uses for a UDT type field: last entry with that name, else null. -/
+def lookupOrNull (n : String) (m : List (String × CqlVal)) : CqlVal :=
+  match lookupLast n m with
+  | some v => v
+  | none => .null
+
+mutual
+/-- The value a well-formed `v` comes back as: short tuples / UDTs padded with nulls, UDT fields in type
+order, the *empty* value of ascii / text / blob is the empty string (the same zero-length cell). -/
+def pad : CqlTy → CqlVal → CqlVal
+  | t, v =>
+    match t with
+    | .native .ascii => match v with | .empty => .ascii [] | _ => v
+    | .native .text => match v with | .empty => .text [] | _ => v
+    | .native .blob => match v with | .empty => .blob [] | _ => v
+    | .native _ => v
+    | .list elt => match v with | .list vs => .list (vs.map (fun x => pad elt x)) | _ => v
+    | .set elt => match v with | .set vs => .set (vs.map (fun x => pad elt x)) | _ => v
+    | .vector elt _ => match v with | .vector vs => .vector (vs.map (fun x => pad elt x)) | _ => v
+    | .map kt vt => match v with
+      | .map kvs => .map (kvs.map (fun kv => (pad kt kv.1, pad vt kv.2)))
+      | _ => v
+    | .tuple ts => match v with | .tuple fs => .tuple (padTuple ts fs) | _ => v
+    | .udt ks name fields => match v with | .udt _ _ m => .udt ks name (padUdt fields m) | _ => v
+def padTuple : List CqlTy → List CqlVal → List CqlVal
+  | [], _ => []
+  | _ :: ts, [] => .null :: padTuple ts []
+  | t :: ts, f :: fs => pad t f :: padTuple ts fs
+def padUdt : List (String × CqlTy) → List (String × CqlVal) → List (String × CqlVal)
+  | [], _ => []
+  | (n, t) :: rest, m => (n, pad t (lookupOrNull n m)) :: padUdt rest m
+end
+
+def isNullVal : CqlVal → Bool
+  | .null => true
+  | _ => false
+
+def isEmptyVal : CqlVal → Bool
+  | .empty => true
+  | _ => false
+
+/-- Values whose content is zero bytes long (within the domain): `empty` and the empty string / blob. -/
+def zeroLenBody : CqlVal → Bool
+  | .empty => true
+  | .ascii [] => true
+  | .text [] => true
+  | .blob [] => true
+  | _ => false
+
+/-- Natives: the constructor is the type's, text is UTF-8 (`u`), ascii is ASCII, `time` is within a day,
+a varint has at least one byte. -/
+def wfNative (u : Bytes → Bool) : NativeTy → CqlVal → Bool
+  | .ascii, .ascii s => s.all (fun b => b < 128) && u s
+  | .text, .text s => u s
+  | .blob, .blob _ => true
+  | .boolean, .boolean _ => true
+  | .tinyint, .tinyint _ => true
+  | .smallint, .smallint _ => true
+  | .int, .int _ => true
+  | .bigint, .bigint _ => true
+  | .counter, .counter _ => true
+  | .float, .float _ => true
+  | .double, .double _ => true
+  | .date, .date _ => true
+  | .time, .time x => x.toNat ≤ 86399999999999
+  | .timestamp, .timestamp _ => true
+  | .timeuuid, .timeuuid _ => true
+  | .uuid, .uuid _ => true
+  | .inet, .inet4 _ => true
+  | .inet, .inet6 _ => true
+  | .varint, .varint b => !b.isEmpty
+  | .decimal, .decimal _ _ => true
+  | .duration, .duration _ _ _ => true
+  | _, _ => false
+
+mutual
+/-- Decidable well-formedness of a non-null value at a type: the domain of `roundtrip`.  Besides "has the
+shape of the type" it excludes the four shapes on which the current code does not round-trip
+(F1: zero-field tuple value; F2: null / unset vector element — nulls are only allowed by `wfCell`;
+F8: zero-length last element of a variable-width vector; F9: `empty` element of a fixed-width vector)
+and degenerate types (zero-field tuple / UDT, zero-dimension vector). -/
+def wfVal (u : Bytes → Bool) : CqlTy → CqlVal → Bool
+  | t, v =>
+    match v with
+    | .null => false
+    | .unset => false
+    | .empty => t.supportsEmpty && (!t.isStringLike || u [])
+    | _ =>
+      match t with
+      | .native n => wfNative u n v
+      | .list elt => match v with | .list vs => vs.all (fun x => wfVal u elt x) | _ => false
+      | .set elt => match v with | .set vs => vs.all (fun x => wfVal u elt x) | _ => false
+      | .map kt vt => match v with
+        | .map kvs => kvs.all (fun kv => wfVal u kt kv.1 && wfVal u vt kv.2)
+        | _ => false
+      | .vector elt dim => match v with
+        | .vector vs =>
+          vs.length == dim && decide (0 < dim) && vs.all (fun x => wfVal u elt x) &&
+            (match elt.sizeForVector with
+             | some _ => vs.all (fun x => !isEmptyVal x)
+             | none => match vs.getLast? with
+               | some l => !zeroLenBody l
+               | none => true)
+        | _ => false
+      | .tuple ts => match v with
+        | .tuple fs => !fs.isEmpty && decide (fs.length ≤ ts.length) && wfTuple u ts fs
+        | _ => false
+      | .udt ks name fields => match v with
+        | .udt vks vname m =>
+          vks == ks && vname == name && !fields.isEmpty && decide ((fields.map (·.1)).Nodup) &&
+            m.all (fun p => fields.any (fun f => f.1 == p.1)) && wfUdt u fields m
+        | _ => false
+def wfTuple (u : Bytes → Bool) : List CqlTy → List CqlVal → Bool
+  | t :: ts, f :: fs => (isNullVal f || wfVal u t f) && wfTuple u ts fs
+  | _, _ => true
+def wfUdt (u : Bytes → Bool) : List (String × CqlTy) → List (String × CqlVal) → Bool
+  | [], _ => true
+  | (n, t) :: rest, m => (isNullVal (lookupOrNull n m) || wfVal u t (lookupOrNull n m)) && wfUdt u rest m
+end
+
+/-- Well-formedness at a nullable position (top level, tuple / UDT field). -/
+def wfCell (u : Bytes → Bool) (t : CqlTy) (v : CqlVal) : Bool := isNullVal v || wfVal u t v
 
 end ScyllaVerif.Codec
